@@ -249,18 +249,132 @@ func c03Run(cfgIdx int, hist []int) *mc.SeqOut {
 	return out
 }
 
+// ---- schedules: concurrent reads of one range with different limits (and a writer) ----
+
+type c03Sched struct {
+	limits []int64 // one List thread per limit
+	count  bool    // a Count thread as well
+	writer bool    // a client creating a key inside the range while the reads run
+}
+
+func (c c03Sched) name() string {
+	return fmt.Sprintf("C03/sched/limits=%v/count=%v/writer=%v", c.limits, c.count, c.writer)
+}
+
+func c03Scheds(tier string) []c03Sched {
+	out := []c03Sched{{[]int64{1, 0}, false, false}, {[]int64{1, 2}, true, false}, {[]int64{2, 0}, false, true}}
+	if tier == "thorough" {
+		out = append(out, c03Sched{[]int64{1, 2, 0}, false, false}, c03Sched{[]int64{1, 3}, true, true})
+	}
+	return out
+}
+
+func c03SchedScenario(c c03Sched) *mc.Scenario {
+	return &mc.Scenario{Name: c.name(), Body: func(x *mc.X) {
+		so := &mc.SeqOut{}
+		w := newWorldCompat(hx.Mem, 16, true)
+		defer w.close()
+		m := newMvcc()
+		// a, a/b, a-b, ab live; a updated once; a-b deleted
+		for _, o := range []seqOp{{0, rCreate, "v1"}, {1, rCreate, "v1"}, {2, rCreate, "v1"}, {3, rCreate, "v2"}, {0, rUpdOK, "v2"}, {2, rDelOK, ""}} {
+			if !w.applyOp(so, m, "C03", c03Keys[o.key], o) {
+				panic("initial history failed")
+			}
+		}
+		w.ops = nil
+		type res struct {
+			limit int64
+			resp  *proto.RangeResponse
+			err   error
+		}
+		var lists []*res
+		var cnt *proto.CountResponse
+		var cntErr error
+		vrt.BeginExplore()
+		var ths []*vrt.Thread
+		for _, l := range c.limits {
+			r := &res{limit: l}
+			lists = append(lists, r)
+			ths = append(ths, vrt.Go(func() {
+				r.resp, r.err = w.b.List(bg, &proto.RangeRequest{Key: []byte("/r/"), End: []byte("/r0"), Limit: r.limit})
+			}))
+		}
+		if c.count {
+			ths = append(ths, vrt.Go(func() { cnt, cntErr = w.b.Count(bg, &proto.CountRequest{Key: []byte("/r/"), End: []byte("/r0")}) }))
+		}
+		if c.writer {
+			ths = append(ths, vrt.Go(func() { w.do(&clientOp{Key: "/r/aa", Kind: rCreate, Val: "w"}) }))
+		}
+		for _, t := range ths {
+			vrt.Join(t)
+		}
+		vrt.Quiesce()
+		vrt.EndExplore()
+		for _, op := range w.ops {
+			if op.OK {
+				m.apply(op.Kind, op.Key, op.Val, op.Hdr)
+			}
+		}
+		var outs []string
+		for _, r := range lists {
+			if r.err != nil {
+				x.Fail("C03|concurrent-list-error|mem", "List with limit %d failed: %v", r.limit, r.err)
+				continue
+			}
+			hdr := r.resp.Header.GetRevision()
+			want, more := m.list("/r/", "/r0", hdr, int(r.limit))
+			if !sameKvs(r.resp.Kvs, want) || r.resp.More != more {
+				x.Fail("C03|concurrent-list|mem", "List with limit %d, running concurrently with %v, answered at revision %d with %s more=%v; the snapshot at that revision holds %s more=%v", r.limit, c.name(), int64(hdr)-base, kvsString(r.resp.Kvs), r.resp.More, mkvString(want), more)
+			}
+			outs = append(outs, fmt.Sprintf("l%d@%d:%d/%v", r.limit, int64(hdr)-base, len(r.resp.Kvs), r.resp.More))
+		}
+		if c.count {
+			if cntErr != nil {
+				x.Fail("C03|concurrent-count-error|mem", "%v", cntErr)
+			} else {
+				want, _ := m.list("/r/", "/r0", cnt.Header.GetRevision(), 0)
+				if int(cnt.Count) != len(want) {
+					x.Fail("C03|concurrent-count|mem", "Count answered %d at revision %d, the snapshot holds %d keys", cnt.Count, int64(cnt.Header.GetRevision())-base, len(want))
+				}
+				outs = append(outs, fmt.Sprintf("count=%d", cnt.Count))
+			}
+		}
+		x.Viols = append(x.Viols, so.Viols...)
+		x.Obs = strings.Join(outs, " ")
+		w.clean = true
+	}}
+}
+
 func init() {
 	mc.Register(&mc.Property{
 		ID:    "C03",
 		Level: "model_checking",
 		Rule: "explicit-state BFS over write histories (create / update correct+stale / delete correct+stale+unguarded x values v1,v2,'tombstone') on prefix-related key sets, states de-duplicated on the rank-normalised reference-model state; " +
-			"after every transition every point read, range read over every pair of 7 bounds, every limit 0..n+1 and count is compared with the versioned-map model at every revision from the first to the committed one, and with the answer recorded one step earlier",
+			"after every transition every point read, range read over every pair of 7 bounds, every limit 0..n+1 and count is compared with the versioned-map model at every revision from the first to the committed one, and with the answer recorded one step earlier; plus every schedule (preemption-bounded) of 2-3 concurrent range reads of one range with different limits, a count and a writer inside the range, each answer compared with the snapshot at its own header revision",
 		Assume: []string{
-			"single client, default schedule, every request followed by scheduler-detected quiescence",
+			"the history search uses a single client and the default schedule, every request followed by scheduler-detected quiescence; concurrent reads are covered by the schedule scenarios",
 			"values outside {v1,v2,tombstone} and keys outside the 4-key set are not covered",
 		},
 		Exec: func(j *mc.Job) *mc.JobResult { return mc.SeqExec(j, c03Run) },
+		Scenarios: func(tier string) []*mc.Scenario {
+			var out []*mc.Scenario
+			for _, c := range c03Scheds(tier) {
+				out = append(out, c03SchedScenario(c))
+			}
+			return out
+		},
 		Drive: func(c *mc.Ctx) {
+			// concurrent reads first (seconds): every schedule of List threads with different limits, Count and a writer
+			full := c.Deadline
+			c.Deadline = c.Start.Add(full.Sub(c.Start) / 4)
+			mc.DriveSchedules(c, func(i int, sc *mc.Scenario) mc.SchedPlan {
+				p := mc.SchedPlan{Class: "concurrent-reads", Bounds: []int{0, 1}, Shard: true}
+				if c.Tier == "thorough" {
+					p.Bounds = []int{0, 1, 2}
+				}
+				return p
+			})
+			c.Deadline = full
 			cfgs := c03Configs()
 			mc.SeqFullDepth = 1
 			if c.Tier == "thorough" {
